@@ -124,6 +124,23 @@ CHECKS = {
         technique="TLA+ interface-table machine (Api.tla) enumerated by TLC; per-case replay with a bitwise oracle "
                   "(result of the 1-D array form)",
         ref="6 (C15)"),
+    "C17": dict(
+        text="SpatialMath.tla is the system specification: a heap of library objects and arrays transformed by "
+             "constructors, operators (outcomes from DispatchTable), per-value methods, conversions, list mutators and "
+             "augmented assignment. Its action property C17_Frame (a step changes nothing but its designated target; only "
+             "list mutators / augmented assignment / drop designate one) and RaiseFrame are model-checked exhaustively on a "
+             "small heap, and TLC generates depth-25 behaviours in which results flow into later calls; they are replayed "
+             "on live objects and the content hash of EVERY live object is compared after every step, together with the "
+             "model's prediction of class and length. In addition every entry of the Api table in every container form "
+             "(argument bytes before/after, call twice for determinism), every matrix-argument entry, every cell of the "
+             "operator table (both operands; right operand for augmented forms) and every public method/property found "
+             "by reflection (single- and multi-valued receivers) are executed.",
+        note="A heap behaviour is abandoned at the first step whose outcome differs from the model in class/length/"
+             "exception (those differences belong to C08/C09/C10 and are counted in evidence). Methods needing arguments "
+             "are reached through the Api table, not by reflection; graphics/animation entry points are not called.",
+        technique="TLA+ heap machine (SpatialMath.tla) model-checked + simulated by TLC; behaviour replay with full-heap "
+                  "content hashes; table-driven argument snapshots",
+        ref="6 (C17), 2.4"),
 }
 
 ENGINE = {"name": "tlc-replay", "path": "/verif/check",
